@@ -26,8 +26,35 @@ def check(ctx, rep):
                         rep.bad("R-LOOP", "R-LOOP:" + key + ":false", b.where(line=st.get("line")), "Scanner.is_eof is reset to false outside the audited site: end of input may never be observed again")
                     else:
                         rep.ok("R-LOOP", key + (":true" if c["bool"] else ":false"), b.where(line=st.get("line")), "constant store" + (" (audited reset, L4 table)" if not c["bool"] else ""))
+                    if c is not None and c.get("bool") is True:
+                        n += 1
+                        _eof_only(rep, b, bi, "eof-store:%s:only-on-unexpected-eof" % b.short, st.get("line"))
             # aggregate construction of Scanner
             for st in blk["stmts"]:
                 if st["k"] == "assign" and st["rv"]["k"] == "agg" and st["rv"].get("adt") == scanai.SCANNER:
                     n += 1
+                    flds = st["rv"].get("fields", [])
+                    if "is_eof" in flds:
+                        cc = mir.op_const(st["rv"]["ops"][flds.index("is_eof")])
+                        if cc is not None and cc.get("bool") is True:
+                            n += 1
+                            _eof_only(rep, b, bi, "eof-store:%s:built-at-eof:only-on-unexpected-eof" % b.short, st.get("line"))
     return n
+
+
+
+def _eof_only(rep, b, bi, key, line):
+    """the end-of-input flag is raised only when the reader said so: the store of `true` is dominated by the test
+    `err.kind() == ErrorKind::UnexpectedEof` - any other error (a reset connection, a failing disk) is an error, and must not make
+    what was received so far look like a complete document"""
+    from rules import guards as G
+
+    ok = False
+    for g in G.guards_at(b, bi):
+        r = repr(g)
+        if "UnexpectedEof" in r and "Error::kind(" in r and ((g.op == "True" and "::eq(" in r) or (g.op == "Eq" and "discr" in r) or (g.op == "False" and "::ne(" in r)):
+            ok = True
+    if ok:
+        rep.ok("R-LOOP", key, b.where(line=line), "raised only under err.kind() == UnexpectedEof")
+    else:
+        rep.bad("R-LOOP", "R-LOOP:" + key, b.where(line=line), "Scanner.is_eof is set to true without the error having been found to be UnexpectedEof: any I/O error then reads as the end of the text, and a truncated transfer decodes as a complete (shorter) value")
